@@ -213,6 +213,7 @@ def run(ctx):
                 'non-trivial = more than one yielded chunk/excerpt. C->S: seeded random runs beyond '
                 'those bounds validated by Trace_Chunking.' % tier)
     ctx.assumptions += [
+        'the Apalache obligations are about the transcription of chunk_bounds (bound to the code by the replay)',
         'small-scope: exhaustive only within the constants of the cfg files; beyond them seeded '
         'random runs',
         'compressed readers: chunk bound k of the .cbin file is identified with the integer k',
@@ -220,6 +221,18 @@ def run(ctx):
     # M: I |= P, termination, vacuity
     ctx.model_check('Chunking', 'MC_Chunking_%s.cfg' % tier, expect_actions=ACTIONS,
                     note='I-layer satisfies P-layer; WF termination', timeout=1500)
+    # A: unbounded-integer inductive invariant of the chunk generator (Apalache): IndInv is initial, inductive,
+    # and implies the tiling / inside / size clauses; NeverDone must be refuted (vacuity guard)
+    mod = tlc.SPEC_DIR / 'apalache' / 'ChunkGenInd.tla'
+    obligations = [('Init', 'IndInv', 0, False), ('IndInit', 'IndInv', 1, False),
+                   ('IndInit', 'TilesAtEnd', 0, False), ('IndInit', 'InsideAndSize', 0, False),
+                   ('Init', 'NeverDone', 3, True)]
+    t_apa = 0.0
+    for init, inv, length, expect_error in obligations:
+        t_apa += tlc.apalache(mod, ctx.work, init, inv, length, expect_error=expect_error)
+    ctx.part(kind='A', module='apalache/ChunkGenInd', obligations=len(obligations), discharged=len(obligations),
+             wall_s=round(t_apa, 1), note='chunk_bounds over unbounded integers: IndInv initial + inductive, implies '
+             'TilesAtEnd and InsideAndSize; NeverDone refuted (the generator terminates)')
     # G + S->C
     res, path, n = ctx.generate('Chunking', 'Gen_Chunking_%s.cfg' % tier, timeout=1500)
     backends = ('flat', 'array', 'npy')
